@@ -55,7 +55,7 @@ func fieldValueUses(v *tmpl.Variant, fd *ast.FuncDecl, F string) []string {
 var reQuotedField = regexp.MustCompile(`"ƒgoNameʃ(ε\d+[\pL\pN_ˑ]*?): ƒredactedContent"`)
 
 func checkC15(c *core.Ctx, l *core.Ledger) {
-	l.Explanation = "Static clauses of C15: (REDACT-STRING / REDACT-ZAP) taint on the templates: on every shape class where a field is marked redacted, the String and MarshalLogObject templates mention the field's value only in a nil test and emit the constant redaction marker for it; where a field is marked no-log the zap template emits nothing that refers to it; (ANNOT) the predicates read exactly the documented annotation keys go.redact and go.nolog and the marker is a Go constant; (ERROR=STRING) an exception's Error() is a single return of String(); (TYPEDEF-DELEGATE) typedef String / MarshalLog* only cast to the target and delegate; (ZAP-ELEM) container zap marshalers hand each element to the marshaler of the element type (so struct elements are logged by their own MarshalLogObject). (ANNOT-FLOW) wherever gen builds a FieldSpec out of another one, Annotations are among the copied fields, so the Args/Result structs of service functions keep go.redact / go.nolog. (LABEL) the function printing log keys returns the go.label value or the Thrift name unchanged. NOT decided: that fmt's %v reaches the nested String() at run time for every container nesting; that every other set field appears under its label."
+	l.Explanation = "Static clauses of C15: (REDACT-STRING / REDACT-ZAP) taint on the templates: on every shape class where a field is marked redacted, the String and MarshalLogObject templates mention the field's value only in a nil test and emit the constant redaction marker for it; where a field is marked no-log the zap template emits nothing that refers to it; (ANNOT) the predicates read exactly the documented annotation keys go.redact and go.nolog and the marker is a Go constant; (ERROR=STRING) an exception's Error() is a single return of String(); (TYPEDEF-DELEGATE) typedef String / MarshalLog* only cast to the target and delegate; (ZAP-ELEM) container zap marshalers hand each element to the marshaler of the element type (so struct elements are logged by their own MarshalLogObject). (ANNOT-FLOW) wherever gen builds a FieldSpec out of another one, Annotations are among the copied fields, so the Args/Result structs of service functions keep go.redact / go.nolog. (ANNOT-CARRY) compile.compileAnnotations stores every parsed annotation under its name whatever its value: no completed iteration skips the store, so presence in the IDL is presence in FieldSpec.Annotations. (LABEL) the function printing log keys returns the go.label value or the Thrift name unchanged. NOT decided: that fmt's %v reaches the nested String() at run time for every container nesting; that every other set field appears under its label."
 	l.RuleText = "one obligation per (template, shape class) / predicate"
 	l.Assumptions = []string{"fmt and zap call String()/MarshalLogObject of nested values (run-time dispatch)"}
 	l.Exhaustive = true
@@ -252,6 +252,7 @@ func checkC15(c *core.Ctx, l *core.Ledger) {
 	}
 	l.Floor("ANNOT", 5)
 	checkFieldSpecCopies(c, l, "ANNOT-FLOW")
+	checkAnnotCarry(c, l, "ANNOT-CARRY")
 	checkLabelVerbatim(c, l, mod, "LABEL")
 
 	// ERROR=STRING
